@@ -199,7 +199,7 @@ HARNESSES = [
                  lambda tier: [dict(kind=k, n=n, nq=1, weights=w) for k in ("nic_default", "nic_symbolic_prior", "nadaraya_watson")
                                for n in ((1, 2) if tier == "quick" else (1, 2, 3)) for w in (False, True)
                                if not (k == "nic_symbolic_prior" and n > 2)],
-                 UNITS[:7], required_witnesses=("no_labels", "one_label"), timeout_ms=60000, product_abstraction=True),
+                 UNITS[:7], required_witnesses=("no_labels", "one_label"), timeout_ms=60000, product_abstraction=True, resample=40),
     dual_harness("wrapper_fallback", sc_fallback,
                  lambda tier: [dict(n=n, nq=2, normal=nm, partial=pt) for n in ((1, 2, 3) if tier == "quick" else (1, 2, 3, 4)) for nm in (False, True) for pt in (False, True)]
                  + [dict(n=3, nq=1, normal=nm, partial=False, missing=-1.0) for nm in (False, True)],
